@@ -357,7 +357,7 @@ fn normalise(o: &Outcome) -> Outcome {
         // which error is reported is not part of the interchangeability statement
         Outcome::Err(_) => Outcome::Err("any".into()),
         Outcome::Ok(Val::Entry(v)) => Outcome::Ok(Val::Entry(link_neutral(v))),
-        Outcome::Ok(Val::EntryF(a, b, c)) => Outcome::Ok(Val::EntryF(link_neutral(a), link_neutral(b), link_neutral(c))),
+        Outcome::Ok(Val::EntryF(a, b, c, d)) => Outcome::Ok(Val::EntryF(link_neutral(a), link_neutral(b), link_neutral(c), link_neutral(d))),
         // traversal order of unsorted listings is free (and C08's business when sorted): multiset
         Outcome::Ok(Val::Entries(items, ended)) => {
             let mut it: Vec<Result<EntryView, String>> = items.iter().map(|x| x.as_ref().map(link_neutral).map_err(|_| "any".to_string())).collect();
